@@ -308,6 +308,8 @@ pub struct SystemRun {
     /// outcome of the last line that ran
     pub outcome: String,
     pub lines_run: usize,
+    /// lines the front end rejected (the session continued)
+    pub lines_rejected: usize,
     /// trace segments that could not be attributed to a process
     pub unattributed: usize,
 }
@@ -333,33 +335,52 @@ pub fn run_session_traced(lines: &[String], b: &Builtins, max_rounds: usize) -> 
 /// so every traced worker step is attributed to `(worker, front of that worker's run queue)`; pids
 /// are global, so a process's trace is still one sequence.
 pub fn run_session_traced_on(lines: &[String], b: &Builtins, max_rounds: usize, n_workers: usize) -> Result<SystemRun, String> {
+    run_session_traced_with(lines, &HashMap::new(), b, max_rounds, n_workers)
+}
+
+/// As above, with in-memory modules (`%name` imports). A line the front end rejects is skipped
+/// (counted in `lines_rejected`) and the session goes on — the REPL keeps its state across a failed
+/// line, which is exactly what has to stay consistent.
+pub fn run_session_traced_with(
+    lines: &[String],
+    modules: &HashMap<Vec<String>, String>,
+    b: &Builtins,
+    max_rounds: usize,
+    n_workers: usize,
+) -> Result<SystemRun, String> {
     use qverif::sim::{Choice, Sim};
     let lines = lines.to_vec();
     let b = b.clone();
+    let modules = modules.clone();
     catch(move || {
-        let mut sim = Sim::new(n_workers, None, b, false).with_repl(HashMap::new());
+        let mut sim = Sim::new(n_workers, None, b, false).with_repl(modules);
         let mut traces: std::collections::BTreeMap<usize, Trace> = Default::default();
         let mut repl_lines: Vec<Trace> = vec![];
         let mut unattributed = 0usize;
         let mut outcome = "budget".to_string();
         let mut lines_run = 0usize;
+        let mut lines_rejected = 0usize;
         for (li, src) in lines.iter().enumerate() {
-            if li > 0 && !sim.idle() {
-                break;
+            if li > 0 {
+                // let pending commands / events drain without executing any instruction
+                sim.quantum = Some(0);
+                for _ in 0..4 {
+                    sim.fair_round();
+                }
+                sim.quantum = None;
+                if !sim.idle() {
+                    break;
+                }
             }
             let req = match sim.submit(src) {
                 Ok(Some(id)) => id,
-                Ok(None) => {
-                    if li == 0 {
-                        return Err("no code".to_string());
+                Ok(None) => continue,
+                Err(e) => {
+                    lines_rejected += 1;
+                    if std::env::var("C07_DEBUG_REJECTED").is_ok() {
+                        eprintln!("rejected line {li}: {src}  -- {}", format!("{e:?}").chars().take(160).collect::<String>());
                     }
                     continue;
-                }
-                Err(_) => {
-                    if li == 0 {
-                        return Err("rejected".to_string());
-                    }
-                    break;
                 }
             };
             let repl_pid = sim.repl.as_ref().map(|r| r.process_id()).unwrap_or(0);
@@ -424,8 +445,11 @@ pub fn run_session_traced_on(lines: &[String], b: &Builtins, max_rounds: usize, 
             }
         }
         quiver_core::executor::verif::set_quantum_override(None);
+        if lines_run == 0 {
+            return Err(if lines_rejected > 0 { "rejected".to_string() } else { "no code".to_string() });
+        }
         let program = sim.env.get_program().to_bytecode(None);
-        Ok(SystemRun { program, repl_lines, traces, outcome, lines_run, unattributed })
+        Ok(SystemRun { program, repl_lines, traces, outcome, lines_run, lines_rejected, unattributed })
     })
     .unwrap_or_else(|p| {
         quiver_core::executor::verif::set_quantum_override(None);
